@@ -66,24 +66,21 @@ def gradient_table(ctx, rule_ta, rule_ch):
     g = g[0]
     chains = [c for c in au.calls(g) if ast.unparse(c.func).endswith(
         '.derivative_chain')]
+    fin = find('self._gradient = _G_[_I_, ..., :__].squeeze()', g)
+    ctx.check(rule_ta, 'gradient: kept components selected by an index list',
+              len(fin) == 1, 'returned gradient is not '
+              'gradient[indices, ...]', ctx.where(sm, g))
+    ctx.anchor(len(fin) == 1, 'final gradient selection in gradient')
+    G, I = fin[0][1]['_G_'], fin[0][1]['_I_']
     folds = [n for n in ast.walk(g) if isinstance(n, ast.AugAssign) and
              isinstance(n.op, ast.Add) and ast.unparse(n.target).startswith(
-                 'gradient[0') and ast.unparse(n.value).startswith(
-                     'gradient[')]
+                 f'{G}[0') and ast.unparse(n.value).startswith(f'{G}[')]
     appends = [c for c in au.calls(g) if ast.unparse(c.func) ==
-               'indices.append']
+               f'{I}.append']
     init = [n for n in ast.walk(g) if isinstance(n, ast.Assign) and
-            ast.unparse(n.targets[0]) == 'indices']
+            ast.unparse(n.targets[0]) == I]
     ctx.anchor(len(init) == 1 and ast.unparse(init[0].value) == '[0]',
-               'indices = [0] in gradient')
-    final = [n for n in ast.walk(g) if isinstance(n, ast.Assign) and
-             ast.unparse(n.targets[0]) == 'self._gradient' and
-             'gradient[' in ast.unparse(n.value)]
-    ctx.check(rule_ta, 'gradient: kept components selected by `indices`',
-              len(final) == 1 and ast.unparse(final[0].value).replace(
-                  ' ', '').startswith('gradient[indices,'),
-              'returned gradient is not gradient[indices, ...]',
-              ctx.where(sm, g))
+               'index list starts as [0] in gradient')
 
     def comp(n):
         return int(ast.unparse(n).split('[')[1].split(',')[0])
@@ -396,11 +393,13 @@ def adjoint_sources(ctx):
               'with the gradient tolerance', ctx.where(sm, bc))
     g = [m for m in sm.methods('Simulation', 'gradient')
          if 'property' in au.decorator_names(m)][0]
-    gt = ast.unparse(g)
+    mis = [n for n in ast.walk(g) if isinstance(n, ast.Attribute) and
+           ast.unparse(n) == 'self.misfit']
+    bc_ = [c for c in au.calls(g) if ast.unparse(c.func) == 'self._bcompute']
     ctx.check('C07.AS.tol', 'gradient evaluates the misfit first',
-              '_ = self.misfit' in gt and gt.index('_ = self.misfit') <
-              gt.index('self._bcompute()'), 'residual and weights are not '
-              'guaranteed to exist before back-propagation', ctx.where(sm, g))
+              bool(mis) and bool(bc_) and min(m.lineno for m in mis) <
+              bc_[0].lineno, 'residual and weights are not guaranteed to '
+              'exist before back-propagation', ctx.where(sm, g))
 
 
 def run(ctx):
